@@ -367,6 +367,7 @@ _dispatch_event_merge_timer(dispatch_clock_t clock)
 	uint32_t tidx = DISPATCH_TIMER_INDEX(clock, 0);
 
 	_dispatch_epoll_timeout[clock].det_armed = false;
+	DISPATCH_VERIF_PROBE("tm_kevent", NULL, clock, 0);
 
 	_dispatch_timers_heap_dirty(dth, tidx);
 	dth[tidx].dth_needs_program = true;
@@ -385,6 +386,7 @@ _dispatch_timeout_program(uint32_t tidx, uint64_t target,
 	};
 	int op;
 
+	DISPATCH_VERIF_PROBE("tm_kprog", NULL, tidx, target);
 	if (target >= INT64_MAX && !timer->det_registered) {
 		return;
 	}
@@ -631,6 +633,7 @@ _dispatch_event_loop_drain(uint32_t flags)
 	int i, r;
 	int timeout = (flags & KEVENT_FLAG_IMMEDIATE) ? 0 : -1;
 
+	DISPATCH_VERIF_PROBE("tm_wait", NULL, timeout, 0);
 retry:
 	r = epoll_wait(_dispatch_epfd, ev, countof(ev), timeout);
 	if (unlikely(r == -1)) {
